@@ -30,16 +30,7 @@ def M_bm_reserve(it, ctx, args, st):
     yield st, UNIT
 
 
-def bm_append(st, p, add):
-    """append to a BytesMut, remembering (ghost state) the pieces the buffer was assembled from"""
-    cur = sval(st, p)
-    new = bstr_concat(cur, add)
-    log = st.aux.get('bm_log', ())
-    prev = next((pcs for obj, pcs in log if obj is cur), None)
-    if prev is None:
-        prev = () if bstr_py(cur) == b'' else (cur,)
-    st.aux['bm_log'] = log[-3:] + ((new, prev + (add,)),)
-    st.write(p, new)
+from .models_std import bm_append
 
 
 def bm_pieces(st, buf):
